@@ -1085,7 +1085,7 @@ def run_classcheck(ctx, model, case):
         ADMM(f=f, g_list=g_list, C_list=C_list, rho_list=[1.0] * len(C_list), x0=x0, maxiter=1, subproblem_solver=sv)
     except Exception as e:  # noqa: BLE001
         last = traceback.extract_tb(e.__traceback__)[-1]
-        if last.name == "internal_init" and last.filename.endswith("_admmaux.py"):
+        if last.name == "internal_init" and last.filename.endswith("_admmaux.py") and (last.line or "").strip().startswith("raise"):
             got = common.err_kind(e)  # raised by one of the guarded `raise` statements of internal_init itself
         else:
             later = True  # the class checks passed; something later failed (shapes, from_operator, ...): not the subject of this stream
